@@ -152,10 +152,12 @@ func (c *context) path(sep string) string {
 }
 
 func (c *context) pathOf(field, sep string) string {
-	if p := c.path(sep); p != "" {
-		return fmt.Sprintf("%v%v%v", p, sep, field)
+	// only the root (no parent, no name) adds nothing to the path; a setting
+	// that is named "" has the empty path as well, and does
+	if c.parent == nil && c.field == "" {
+		return field
 	}
-	return field
+	return fmt.Sprintf("%v%v%v", c.path(sep), sep, field)
 }
 
 func newBool(ctx context, m *Meta, b bool) *cfgBool {
